@@ -38,6 +38,13 @@ def tv (n x h : Nat) : Nat := x ^^^ (if ip n x h then h else 0)
 /-- `transvection(x, *h_list)`: the `h` are applied in list order. -/
 def tvs (n x : Nat) (hs : List Nat) : Nat := hs.foldl (tv n) x
 
+/-- `transvection(x, *hs)` for `x.ndim ≥ 2` (`spf2.py:74-78`, `tmp0[...,np.newaxis]`): the map acts on the last axis, elementwise
+over all leading (batch) axes — here the array flattened to the list of its rows -/
+def tvsBatch (n : Nat) (rows : List Nat) (hs : List Nat) : List Nat := rows.map fun r => tvs n r hs
+
+/-- `get_inner_product(v0, v1)` for `v0.ndim ≥ 2` (`spf2.py:60`): one bit per row of `v0` -/
+def ipBatch (n : Nat) (rows : List Nat) (w : Nat) : List Bool := rows.map fun r => ip n r w
+
 /-- first index `i < k` with `p i` (`np.nonzero(...)[0][0]`) -/
 def findIdx (p : Nat → Bool) : (k : Nat) → Option Nat
   | 0 => none
